@@ -45,8 +45,8 @@ CLAIMED.update({
         "design_ref": "DESIGN.md 4.6",
         "technique": "Coq proof by induction over heterogeneous value lists, width-generic bit lemmas; correspondence by "
                      "extracted OCaml model",
-        "note": "8 theorems closed under the global context. Known finding F26 (snake recursion) is reported as "
-                "KNOWN-FINDING.",
+        "note": "8 theorems closed under the global context. The two findings first recorded here (F26 snake "
+                "recursion, F27 zero-length external address) have been repaired in the library.",
     },
     "C07": {
         "text": "Machine-checked proof over all store-operation histories that the builder model never exceeds 1023 bits / "
